@@ -288,8 +288,8 @@ func entryOnly(t *Term) bool {
 		}
 		switch s.Kind {
 		case kVar:
-			if !(strings.HasPrefix(s.Op, "p_") || strings.HasSuffix(s.Op, "_0")) {
-				ok = false
+			if !(strings.HasPrefix(s.Op, "p_") || (strings.HasSuffix(s.Op, "_0") && isHeapComp(s.Op))) {
+				ok = false // in particular alloc_0: ids built from it are fresh, not entry values
 			}
 		case kApp:
 			if s.Op == "store" || strings.HasPrefix(s.Op, "zerorow_") {
@@ -649,10 +649,14 @@ func (x *Exec) VerifyFunc(fn *ssa.Function, spec *FuncSpec) (obls []*Obligation,
 	st.assume(Cmp(">=", vc.allocBase, IntLit(1)))
 	fr := &Frame{id: 0, fn: fn, vals: map[ssa.Value]Val{}, open: map[*Loop]bool{}}
 	vc.paramEnv = map[string]SV{}
-	for _, p := range fn.Params {
-		t := x.freshParam(st, p.Name(), p.Type())
+	for i, p := range fn.Params {
+		name := p.Name()
+		if name == "_" || name == "" {
+			name = fmt.Sprintf("blank%d", i)
+		}
+		t := x.freshParam(st, name, p.Type())
 		fr.vals[p] = Val{T: t}
-		vc.paramEnv[p.Name()] = SV{T: t, Typ: p.Type()}
+		vc.paramEnv[name] = SV{T: t, Typ: p.Type()}
 	}
 	for _, p := range fn.FreeVars {
 		t := x.freshParam(st, p.Name(), p.Type())
